@@ -1441,8 +1441,14 @@ fn with_parens_liberal(expr: &Expression) -> Markup {
 fn pretty_print_binop(op: &BinaryOperator, lhs: &Expression, rhs: &Expression) -> Markup {
     match op {
         BinaryOperator::ConvertTo => {
-            // never needs parens, it has the lowest precedence:
-            lhs.pretty_print() + op.pretty_print() + rhs.pretty_print()
+            // has the lowest precedence of all operators, but a conditional on the left-hand
+            // side needs parens: its `else` branch would swallow the conversion otherwise
+            let lhs_markup = if matches!(lhs, Expression::Condition { .. }) {
+                with_parens(lhs)
+            } else {
+                lhs.pretty_print()
+            };
+            lhs_markup + op.pretty_print() + rhs.pretty_print()
         }
         BinaryOperator::Mul => match (lhs, rhs) {
             (
